@@ -385,6 +385,39 @@ def r3_strings(ck, prog, run):
            note=(f"{len(bad)} of {n} spellings wrong" if bad else None) if not unk else f"not evaluable: {unk[:2]}")
     run.extra["decimal_spellings_examined"] = n
     run.floor("R3", "decimal spellings examined", n, 300)
+    # the same function in IEEE doubles (every float(), **, * and + of the source rounded to nearest-even): exponents that move the point
+    # beyond the digits present are applied by multiplying with a power of ten, which is not exact for negative powers; the parts
+    # must still come out (nothing may raise) and sum to the value within 2^-52 cycles
+    ieee = ["0.1e-5", "0.25e-3", "3.7e-4", "12.5e-4", "5e-3", "0.7e-1", "1.5E-10", "0.1D-5", "-0.3e-2", "7.e-3", "2.5e3", "1.25e2", "123.456e-2", "0.000001",
+            "9876543210.0123456789012345", "6.02e5", ".5e-1", "3e-1j", "-1.1e-7",
+            # plain decimals whose separately rounded parts do not add up, bit for bit, to the directly parsed double
+            "1.23456789", "228.852064360", "0.123456789e1", "-123456789.001e-8"]
+    bad2, unk2, n2 = [], [], 0
+    for s_ in ieee:
+        n2 += 1
+        ev = phase_evaluator(prog, PhaseLog())
+        ev.float_fold = True
+        try:
+            r = ev.call(fps, [StrV(s_)], {})
+        except Raised as e:
+            bad2.append((s_, f"raises {e}"[:90]))
+            continue
+        except (Unsupported, DimensionError) as e:
+            unk2.append((s_, str(e)[:100]))
+            continue
+        if not (isinstance(r, TupleV) and len(r.items) == 2 and all(isinstance(x, Num) and x.expr.is_number for x in r.items)):
+            unk2.append((s_, repr(r)[:80]))
+            continue
+        val, imag = exact_value(s_)
+        unit = sp.I if imag else 1
+        err = sp.Abs(sp.simplify((r.items[0].expr + r.items[1].expr) / unit - val))
+        if not (err <= sp.Rational(1, 2**52)):
+            bad2.append((s_, f"parts sum to the value with an error of {sp.N(err, 5)} cycles"))
+    run.ob("R3", fps.where, f"_parse_string over {n2} spellings in IEEE double arithmetic", "every plain decimal string is parsed (nothing raises) and the two parts "
+           "sum to its value to within 2^-52 cycles, also when the exponent moves the point beyond the digits present",
+           (not bad2) if not unk2 else (False if bad2 else None), found=str(bad2[:4]) if bad2 else None, nontrivial=True,
+           note=f"{len(bad2)} of {n2} wrong" + (f"; not evaluable: {unk2[:2]}" if unk2 else ""))
+    run.floor("R3", "decimal spellings evaluated in IEEE doubles", n2, 15)
     # sibling idiom: a string without a decimal point keeps all digits in the integer part at both splitting sites
     for fi, var in ((fps, "s_float"), (prog.func("PhasePredictor.from_polyco"), "rphase")):
         calls = [c_ for c_ in ast.walk(fi.node) if isinstance(c_, ast.Call) and isinstance(c_.func, ast.Attribute) and c_.func.attr in ("partition", "rpartition", "split")
